@@ -198,6 +198,10 @@ def k_sec_header(ctx, service, subservice, source_id, ack):
     ok, h = attempt(tcm.PusTcDataFieldHeader.unpack, want + b"\xaa\xbb")
     ctx.check("tc.sec_header", ok and (h.service, h.subservice, h.source_id, h.ack_flags) == (service, subservice, source_id, ack),
               "unpack", "", case, observed=repr(h))
+    # ... and from exactly the octets it packed to (nothing behind them: the smallest buffer a decoder must accept)
+    ok, h = attempt(tcm.PusTcDataFieldHeader.unpack, want)
+    ctx.check("tc.sec_header", ok and (h.service, h.subservice, h.source_id, h.ack_flags) == (service, subservice, source_id, ack),
+              "unpack_exact_octets", "", case, observed=repr(h))
 
 
 def poison_tc(r):
